@@ -88,6 +88,13 @@ def build(rng, facts, name):
                 want = min(max(yp, mn), mx)
                 return None if y == want else "exact-variant quantile %s differs from the plain answer %s clamped to [min, max]" % (a, impl[jp])
             b.emit("q a %s" % f2h(q), chk)
+    # GetValuesAtQuantiles answers like the single queries, whatever the order of the list (each answer is clamped to [min, max] by itself)
+    for r in regs:
+        if any(w > 0 for _, w in b.vals[r]):
+            qsl = [rng.random() for _ in range(rng.randint(1, 4))] + [0.0, 1.0, 0.0]; rng.shuffle(qsl)
+            js = [b.emit("q %s %s" % (r, f2h(q))) for q in qsl]
+            b.emit("qs %s %s" % (r, " ".join(f2h(q) for q in qsl)),
+                   lambda a, env, impl, js=js: None if a == ",".join(impl[j] for j in js) else "GetValuesAtQuantiles answered %s where the single queries answer %s" % (a, ",".join(impl[j] for j in js)))
     return b
 
 
